@@ -41,6 +41,7 @@ type RunResult struct {
 	SolverTime   float64               `json:"solver_time_s"`
 	Wall         float64               `json:"wall_s"`
 	RegexEnc     int                   `json:"regex_encodings"`
+	Witness      map[string]uint64     `json:"witness,omitempty"`
 	Error        string                `json:"error,omitempty"`
 }
 
@@ -259,6 +260,7 @@ func runSpec(prog *ssa.Program, hpkg *ssa.Package, sp RunSpec, solverKind, solve
 	res.SatQ, res.UnsatQ, res.UnknownQ = s.SatQ, s.UnsatQ, s.UnknownQ
 	res.SolverTime = s.Time.Seconds()
 	res.RegexEnc = E.regexEncodings
+	res.Witness = E.Witness
 	res.Wall = time.Since(t0).Seconds()
 	return res
 }
